@@ -13,7 +13,12 @@ FileInfo = TRec(
 FileInfo.dictlike = True
 
 HashesCache = TRef("HashesCache", fields=dict(table=TMap(TStr, TStr)))
-State = TRef("State", fields=dict(hashes=HashesCache), qualname="dvc_data.hashfile.state:State")
+from pyvc.types import TAbs, TOMap, TTuple  # noqa: E402
+
+# links: the table of links recorded by checkout, relative path -> (inode, mtime token), as a value (one diskcache transaction)
+LinkRec = TTuple([TInt, TStr])
+State = TRef("State", fields=dict(hashes=HashesCache, links=TOMap(TStr, LinkRec), root_dir=TStr, ignore=TOpt(TAbs("Ignore"))),
+             qualname="dvc_data.hashfile.state:State")
 
 
 def CK(ino, mtime, size):
